@@ -196,8 +196,12 @@ def createRule (k : NK) (seen : List Bytes) (r : Rule) : Except Err Unit :=
         (match scalarItems v with
          | none => .error (.unsupported "or: not an array of literals")
          | some items =>
-           if !items.all Unquote.inQuotes then .error (.code 904 r.pos)
-           else if !(items.all fun it => isUserTypeName (unq it)) then .error (.unsupported "or: scalar type name")
+           -- the members are loaded IN ORDER: a quoted scalar type name is compiled on the spot (its own errors:
+           -- 102, 1112, 1113 …) before a later unquoted item is met (904): found by the run-time bridge against
+           -- `CR.loadOrItem`, settled by the real library
+           if !(items.all fun it => !Unquote.inQuotes it || isUserTypeName (unq it)) then
+             .error (.unsupported "or: scalar type name")
+           else if !items.all Unquote.inQuotes then .error (.code 904 r.pos)
            else if items.length == 0 then .error (.code 902 r.pos)
            else if items.length == 1 then .error (.code 903 r.pos)
            else if seen.contains (sb "type") && k == .mixed then .error (.unsupported "or on a type shortcut")
@@ -338,111 +342,20 @@ def incompatible (jt : JT) (name : Bytes) : Bool :=
   else if name == sb "enum" then jt == .obj || jt == .arr || jt == .mixed
   else false
 
-/-- `compileNode` without the recursion into the children -/
-def basic (n : RNode) (jt : JT) (parentIsObj : Bool) (nChildren : Nat) : Except Err Basic := do
-  -- falseConstraints
-  let rs := n.rules.filter fun r =>
-    !((r.name == sb "nullable" || r.name == sb "const") && r.val.bind parseBool == some false)
-  let typeRule := findRule rs "type"
-  -- orConstraint
-  let hasOr := hasRule rs "or"
-  if hasOr then
-    if n.kind == .mixed then
-      -- generated by the shortcut `@a | @b`: optional / nullable only
-      if others rs ["or", "optional", "nullable"] != 0 then throw (.code 1103 0)
-    else
-      match typeRule with
-      | some t => if t.val != some (sb "\"mixed\"") then throw (.code 1111 0)
-      | none => pure ()
-      if others rs ["or", "optional", "nullable", "type"] != 0 then throw (.code 1103 0)
-      if n.kind == .obj || n.kind == .arr then
-        if nChildren != 0 then throw (.code 1108 0)
-        throw (.code 1108 0)      -- user types in the or list (the only members the model takes)
-  -- enumConstraint
-  if hasRule rs "enum" then
-    match typeRule with
-    | some t => if t.val != some (sb "\"enum\"") then throw (.code 1111 0)
-    | none => pure ()
-    if others rs ["enum", "optional", "const", "nullable", "type"] != 0 then throw (.code 1104 0)
-  -- precisionConstraint
-  if hasRule rs "precision" then
-    match typeRule with
-    | some t => if (t.val.map unq) != some (sb "decimal") then throw (.code 1117 0)
-    | none => pure ()
-  -- typeConstraint
-  let mut any := false
-  let mut fmt : Option RulesF.Fmt := none
-  let mut names : Option (List String) := none
-  let mut orShort := false
-  if hasOr then
-    match findRule rs "or" with
-    | some r =>
-      if r.gen then
-        names := some ((splitPipe (r.val.getD [])).map keyStr)
-        orShort := true
-      else names := some (orNames r)
-    | none => pure ()
-  match typeRule with
-  | none => pure ()
-  | some t =>
-    let v := unq (t.val.getD [])
-    if isUserTypeName v then
-      if others rs ["type", "optional", "nullable"] != 0 then throw (.code 1102 0)
-      if n.kind == .obj || n.kind == .arr then throw (.code 1107 0)
-      if n.kind == .mixed && !t.gen then throw (.code 1107 0)
-      names := some [keyStr v]
-    else if v == sb "mixed" then
-      match names with
-      | some ns => if ns.length < 2 then throw (.code 1114 0)
-      | none => throw (.code 1114 0)
-    else if v == sb "enum" then
-      if !hasRule rs "enum" then throw (.code 1113 0)
-      if jt == .obj || jt == .arr || jt == .mixed then throw (.code 1115 0)
-    else if v == sb "any" then any := true
-    else if v == sb "decimal" then
-      if !hasRule rs "precision" then throw (.code 1112 0)
-      if jt != .flt then throw (.code 1115 0)
-    else if (fmtOfType v).isSome then
-      fmt := fmtOfType v
-      if jt != .str then throw (.code 1115 0)
-    else if v == sb "object" || v == sb "array" || v == sb "string" || v == sb "integer" || v == sb "float"
-        || v == sb "boolean" || v == sb "null" then
-      if v != jt.name then throw (.code 1115 0)
-    else throw (.code 102 0)
-  -- allowedConstraintCheck
-  if fmt.isSome && (hasRule rs "minLength" || hasRule rs "maxLength") then throw (.code 1117 0)
-  if any && hasRule rs "const" then throw (.code 1117 0)
-  -- anyConstraint
-  if any then
-    if others rs ["type", "optional", "nullable", "const"] != 0 then throw (.code 1105 0)
-    if nChildren != 0 then throw (.code 1106 0)
-  -- exclusiveMinimum / exclusiveMaximum
-  if hasRule rs "exclusiveMinimum" && !hasRule rs "min" then throw (.code 1109 0)
-  if hasRule rs "exclusiveMaximum" && !hasRule rs "max" then throw (.code 1110 0)
-  let exMin := boolRule rs "exclusiveMinimum" == some true
-  let exMax := boolRule rs "exclusiveMaximum" == some true
-  -- checkPairConstraints
-  match findRule rs "min", findRule rs "max" with
-  | some a, some b =>
-    match cmpNum (a.val.getD []) (b.val.getD []) with
-    | some c =>
-      if exMin || exMax then
-        if c != .lt then throw (.code 618 0)
-      else
-        if c == .gt then throw (.code 617 0)
-    | none => pure ()
-  | _, _ => pure ()
-  match findRule rs "minLength", findRule rs "maxLength" with
-  | some a, some b =>
-    match parseUint (a.val.getD []), parseUint (b.val.getD []) with
-    | some x, some y => if x > y then throw (.code 617 0)
-    | _, _ => pure ()
-  | _, _ => pure ()
-  -- optionalConstraints
-  let optional := boolRule rs "optional"
-  if optional.isSome && !parentIsObj then throw (.code 1101 0)
-  -- the literal validators, in the order the rules were written (a conjunction: the order is immaterial)
-  let lits : List RulesF.Rule := rs.filterMap fun r =>
+/-! `compileNode` without the recursion into the children, one definition per step of `compiler_basic.go`, each ending
+in a call of the next one (a single `do` block elaborates into fifteen nested join points, which no proof can step
+through; this form is the same function — ties `e2e-text`, `c02-text`). -/
+
+def bFinish (frs : List Rule) (jt : JT) (optional : Option Bool) (any : Bool) (fmt : Option RulesF.Fmt)
+    (names : Option (List String)) (orShort : Bool) (lits : List RulesF.Rule) (add : Add) : Except Err Basic :=
+  let bad := (frs.any fun r => incompatible jt r.name) || (fmt.isSome && jt != .str)
+  match fmt with
+  | some .email | some .uri | some .datetime => throw (.unsupported "format that needs the standard library")
+  | _ => pure { optional := optional, nul := hasRule frs "nullable", any := any, names := names, orShort := orShort,
+                add := add, rules := lits, bad := bad }
+
+def bLits (frs : List Rule) (exMin exMax : Bool) (fmt : Option RulesF.Fmt) : List RulesF.Rule :=
+  (frs.filterMap fun r =>
     let v := r.val.getD []
     if r.name == sb "min" then some (.min v exMin)
     else if r.name == sb "max" then some (.max v exMax)
@@ -451,17 +364,146 @@ def basic (n : RNode) (jt : JT) (parentIsObj : Bool) (nChildren : Nat) : Except 
     else if r.name == sb "precision" then (parseUint v).map .precision
     else if r.name == sb "const" then some .const
     else if r.name == sb "enum" then (scalarItems v).map .enum
-    else none
-  let lits := lits ++ (match fmt with | some f => [.fmt f] | none => [])
-  let add ← match findRule rs "additionalProperties" with
-    | some r => parseAdd (r.val.getD [])
-    | none => pure Add.absent
-  let bad := (rs.any fun r => incompatible jt r.name) || (fmt.isSome && jt != .str)
-  match fmt with
-  | some .email | some .uri | some .datetime => throw (.unsupported "format that needs the standard library")
-  | _ => pure ()
-  pure { optional := optional, nul := hasRule rs "nullable", any := any, names := names, orShort := orShort,
-         add := add, rules := lits, bad := bad }
+    else none) ++ (match fmt with | some f => [.fmt f] | none => [])
+
+/-- `optionalConstraints`, the literal validators, `additionalProperties` -/
+def bOptional (frs : List Rule) (jt : JT) (parentIsObj : Bool) (any : Bool) (fmt : Option RulesF.Fmt)
+    (names : Option (List String)) (orShort : Bool) (exMin exMax : Bool) : Except Err Basic :=
+  let optional := boolRule frs "optional"
+  if optional.isSome && !parentIsObj then throw (.code 1101 0)
+  else
+    match findRule frs "additionalProperties" with
+    | some r =>
+      match parseAdd (r.val.getD []) with
+      | .error e => .error e
+      | .ok add => bFinish frs jt optional any fmt names orShort (bLits frs exMin exMax fmt) add
+    | none => bFinish frs jt optional any fmt names orShort (bLits frs exMin exMax fmt) Add.absent
+
+/-- `checkMinLengthAndMaxLength` -/
+def bLens (frs : List Rule) (next : Except Err Basic) : Except Err Basic :=
+  match findRule frs "minLength", findRule frs "maxLength" with
+  | some a, some b =>
+    match parseUint (a.val.getD []), parseUint (b.val.getD []) with
+    | some x, some y => if x > y then throw (.code 617 0) else next
+    | _, _ => next
+  | _, _ => next
+
+/-- `checkMinAndMax` -/
+def bMinMax (frs : List Rule) (exMin exMax : Bool) (next : Except Err Basic) : Except Err Basic :=
+  match findRule frs "min", findRule frs "max" with
+  | some a, some b =>
+    match cmpNum (a.val.getD []) (b.val.getD []) with
+    | some c =>
+      if exMin || exMax then
+        if c != .lt then throw (.code 618 0) else next
+      else
+        if c == .gt then throw (.code 617 0) else next
+    | none => next
+  | _, _ => next
+
+/-- `checkPairConstraints` -/
+def bPairs (frs : List Rule) (jt : JT) (parentIsObj : Bool) (any : Bool) (fmt : Option RulesF.Fmt)
+    (names : Option (List String)) (orShort : Bool) : Except Err Basic :=
+  let exMin := boolRule frs "exclusiveMinimum" == some true
+  let exMax := boolRule frs "exclusiveMaximum" == some true
+  bMinMax frs exMin exMax (bLens frs (bOptional frs jt parentIsObj any fmt names orShort exMin exMax))
+
+/-- `allowedConstraintCheck`, `anyConstraint`, `exclusiveMinimumConstraint`, `exclusiveMaximumConstraint` -/
+def bAllowed (frs : List Rule) (jt : JT) (parentIsObj : Bool) (nChildren : Nat) (any : Bool) (fmt : Option RulesF.Fmt)
+    (names : Option (List String)) (orShort : Bool) : Except Err Basic :=
+  if fmt.isSome && (hasRule frs "minLength" || hasRule frs "maxLength") then throw (.code 1117 0)
+  else if any && hasRule frs "const" then throw (.code 1117 0)
+  else if any && others frs ["type", "optional", "nullable", "const"] != 0 then throw (.code 1105 0)
+  else if any && nChildren != 0 then throw (.code 1106 0)
+  else if hasRule frs "exclusiveMinimum" && !hasRule frs "min" then throw (.code 1109 0)
+  else if hasRule frs "exclusiveMaximum" && !hasRule frs "max" then throw (.code 1110 0)
+  else bPairs frs jt parentIsObj any fmt names orShort
+
+/-- `typeConstraint` -/
+def bType (kind : NK) (frs : List Rule) (jt : JT) (parentIsObj : Bool) (nChildren : Nat)
+    (names : Option (List String)) (orShort : Bool) : Except Err Basic :=
+  match findRule frs "type" with
+  | none => bAllowed frs jt parentIsObj nChildren false none names orShort
+  | some t =>
+    let v := unq (t.val.getD [])
+    if isUserTypeName v then
+      if others frs ["type", "optional", "nullable"] != 0 then throw (.code 1102 0)
+      else if kind == .obj || kind == .arr then throw (.code 1107 0)
+      else if kind == .mixed && !t.gen then throw (.code 1107 0)
+      else bAllowed frs jt parentIsObj nChildren false none (some [keyStr v]) orShort
+    else if v == sb "mixed" then
+      match names with
+      | some ns => if ns.length < 2 then throw (.code 1114 0)
+                   else bAllowed frs jt parentIsObj nChildren false none names orShort
+      | none => throw (.code 1114 0)
+    else if v == sb "enum" then
+      if !hasRule frs "enum" then throw (.code 1113 0)
+      else if jt == .obj || jt == .arr || jt == .mixed then throw (.code 1115 0)
+      else bAllowed frs jt parentIsObj nChildren false none names orShort
+    else if v == sb "any" then bAllowed frs jt parentIsObj nChildren true none names orShort
+    else if v == sb "decimal" then
+      if !hasRule frs "precision" then throw (.code 1112 0)
+      else if jt != .flt then throw (.code 1115 0)
+      else bAllowed frs jt parentIsObj nChildren false none names orShort
+    else if (fmtOfType v).isSome then
+      if jt != .str then throw (.code 1115 0)
+      else bAllowed frs jt parentIsObj nChildren false (fmtOfType v) names orShort
+    else if v == sb "object" || v == sb "array" || v == sb "string" || v == sb "integer" || v == sb "float"
+        || v == sb "boolean" || v == sb "null" then
+      if v != jt.name then throw (.code 1115 0)
+      else bAllowed frs jt parentIsObj nChildren false none names orShort
+    else throw (.code 102 0)
+
+/-- the types list of an `or` rule -/
+def bNames (kind : NK) (frs : List Rule) (jt : JT) (parentIsObj : Bool) (nChildren : Nat) : Except Err Basic :=
+  if hasRule frs "or" then
+    match findRule frs "or" with
+    | some r =>
+      if r.gen then bType kind frs jt parentIsObj nChildren (some ((splitPipe (r.val.getD [])).map keyStr)) true
+      else bType kind frs jt parentIsObj nChildren (some (orNames r)) false
+    | none => bType kind frs jt parentIsObj nChildren none false
+  else bType kind frs jt parentIsObj nChildren none false
+
+/-- `enumConstraint`, `precisionConstraint` -/
+def bEnumPrec (kind : NK) (frs : List Rule) (jt : JT) (parentIsObj : Bool) (nChildren : Nat) : Except Err Basic :=
+  let prec : Except Err Basic :=
+    if hasRule frs "precision" then
+      match findRule frs "type" with
+      | some t => if (t.val.map unq) != some (sb "decimal") then throw (.code 1117 0)
+                  else bNames kind frs jt parentIsObj nChildren
+      | none => bNames kind frs jt parentIsObj nChildren
+    else bNames kind frs jt parentIsObj nChildren
+  if hasRule frs "enum" then
+    match findRule frs "type" with
+    | some t =>
+      if t.val != some (sb "\"enum\"") then throw (.code 1111 0)
+      else if others frs ["enum", "optional", "const", "nullable", "type"] != 0 then throw (.code 1104 0)
+      else prec
+    | none =>
+      if others frs ["enum", "optional", "const", "nullable", "type"] != 0 then throw (.code 1104 0)
+      else prec
+  else prec
+
+/-- `falseConstraints`, `orConstraint`, then the rest -/
+def basic (n : RNode) (jt : JT) (parentIsObj : Bool) (nChildren : Nat) : Except Err Basic :=
+  let frs := n.rules.filter fun r =>
+    !((r.name == sb "nullable" || r.name == sb "const") && r.val.bind parseBool == some false)
+  let next := bEnumPrec n.kind frs jt parentIsObj nChildren
+  if hasRule frs "or" then
+    if n.kind == .mixed then
+      if others frs ["or", "optional", "nullable"] != 0 then throw (.code 1103 0) else next
+    else
+      match findRule frs "type" with
+      | some t =>
+        if t.val != some (sb "\"mixed\"") then throw (.code 1111 0)
+        else if others frs ["or", "optional", "nullable", "type"] != 0 then throw (.code 1103 0)
+        else if n.kind == .obj || n.kind == .arr then throw (.code 1108 0)
+        else next
+      | none =>
+        if others frs ["or", "optional", "nullable", "type"] != 0 then throw (.code 1103 0)
+        else if n.kind == .obj || n.kind == .arr then throw (.code 1108 0)
+        else next
+  else next
 
 mutual
 /-- `compileNode` on node `i`: the compiled node and its `optional` rule as written -/
@@ -663,17 +705,16 @@ def checkNode (ts : Types) (fuel : Nat) : CN → Except Err Unit
   | .obj props add _ bad =>
     if bad then .error (.code 1117 0)
     else
-      -- ensureShortcutKeysAreValid
-      match props.find? (fun p => p.2.1 && (lookupT ts ("@" ++ p.1)).isNone) with
-      | some _ => .error (.code 1302 0)
+      -- ensureShortcutKeysAreValid: KEY BY KEY — the first shortcut key that is undefined (1302) or whose type is
+      -- not a string (1304); found by the run-time bridge against `CK.keysErr`, settled by the real library
+      match props.find? (fun p => p.2.1 && ((lookupT ts ("@" ++ p.1)).isNone
+                                            || actualRoot ts fuel [] ("@" ++ p.1) != some .str)) with
+      | some p => .error (.code (if (lookupT ts ("@" ++ p.1)).isNone then 1302 else 1304) 0)
       | none =>
-        match props.find? (fun p => p.2.1 && actualRoot ts fuel [] ("@" ++ p.1) != some .str) with
-        | some _ => .error (.code 1304 0)
-        | none =>
-          -- checkAdditionalPropertiesConstraint
-          match add with
-          | .type n => if (lookupT ts n).isNone then .error (.code 1302 0) else checkProps ts fuel props
-          | _ => checkProps ts fuel props
+        -- checkAdditionalPropertiesConstraint
+        match add with
+        | .type n => if (lookupT ts n).isNone then .error (.code 1302 0) else checkProps ts fuel props
+        | _ => checkProps ts fuel props
 def checkItems (ts : Types) (fuel : Nat) : List CN → Except Err Unit
   | [] => .ok ()
   | x :: xs => match checkNode ts fuel x with
